@@ -136,7 +136,7 @@ func (r *Runtime) Load(ctx context.Context, filter any) error {
 		}
 
 		sb := r.symbolTable.Lookup(sp.GetID())
-		if sb == nil || !reflect.DeepEqual(sb.Spec, sp) {
+		if sb == nil || !reflect.DeepEqual(sb.Spec, spec.Spec(unstructured)) {
 			var n node.Node
 			if sp != unstructured {
 				if n, err = r.scheme.Compile(sp); err != nil {
